@@ -1,0 +1,19 @@
+//go:build verif
+
+package cmdutils
+
+// Contracts for the govc verifier (/verif). Comment-only.
+
+// encoding/json decodes INTO its destination: maps and fields already present are kept and merged.
+// A record decodes to exactly what was encoded only if the destination starts as the zero value.
+//@ extern json.Decoder.Decode(v)
+//@   requires pointee_zero(v)
+//@   modifies *v
+
+// "import replaces whatever was there ... reproduce the same pinset": every decoded record is
+// added as decoded (into a fresh pin), the first error stops the import
+//@ func importState
+//@   property C14
+//@   loop 1 (for)
+//@     invariant true
+//@   modifies pinset, heap(api.Pin)
